@@ -16606,7 +16606,7 @@ RV_<G_<NFT_, TC_, Manual, TRO_ HFSM2_IF_UTILITY_THEORY(, TR_, TU_, TG_), NSL_ HF
 	HFSM2_ASSERT(_core.requests.empty());
 
 #if HFSM2_PLANS_AVAILABLE()
-	HFSM2_ASSERT(_core.planData.empty() == 0);
+	HFSM2_IF_ASSERT(_core.planData.verifyPlans());
 #endif
 
 #if HFSM2_TRANSITION_HISTORY_AVAILABLE()
